@@ -349,6 +349,58 @@ def _fetch_url_attempts(tree: ast.Module) -> tuple[bool, bool, bool]:
     return v1, retry_shape, v2
 
 
+def _inflate_limits() -> dict[str, object]:
+    """`vgi_rpc/_codec.py`: the per-call output limit the two bounded decoders pass to the library,
+    `min(_DECOMPRESS_CHUNK_BYTES, max_output_size - total + K)`, and their cap guards."""
+    ctree = ast.parse((REPO / "vgi_rpc/_codec.py").read_text())
+    chunk = None
+    for n in ctree.body:
+        if isinstance(n, ast.Assign) and ast.unparse(n.targets[0]) == "_DECOMPRESS_CHUNK_BYTES":
+            chunk = _const_int(n.value)
+    if chunk is None:
+        raise Shape("_DECOMPRESS_CHUNK_BYTES")
+
+    def offset(fn: ast.AST, recv: str, meth: str, argi: int) -> int:
+        found = []
+        for n in ast.walk(fn):
+            if (
+                isinstance(n, ast.Call)
+                and isinstance(n.func, ast.Attribute)
+                and n.func.attr == meth
+                and ast.unparse(n.func.value) == recv
+                and len(n.args) > argi
+            ):
+                found.append(n.args[argi])
+        if len(found) != 1:
+            raise Shape(f"{recv}.{meth}(…limit…) occurrences: {len(found)}")
+        a = found[0]
+        if not (isinstance(a, ast.Call) and isinstance(a.func, ast.Name) and a.func.id == "min" and len(a.args) == 2
+                and ast.unparse(a.args[0]) == "_DECOMPRESS_CHUNK_BYTES"):
+            raise Shape(f"limit expression {ast.unparse(a)}")
+        e = a.args[1]
+        if isinstance(e, ast.Name):  # a local holding the budget: resolve its (single) assignment
+            defs = [m.value for m in ast.walk(fn) if isinstance(m, ast.Assign) and len(m.targets) == 1
+                    and isinstance(m.targets[0], ast.Name) and m.targets[0].id == e.id]
+            if len(defs) != 1:
+                raise Shape(f"limit variable {e.id}")
+            e = defs[0]
+        if ast.unparse(e) == "max_output_size - total":
+            return 0
+        if isinstance(e, ast.BinOp) and isinstance(e.op, ast.Add) and ast.unparse(e.left) == "max_output_size - total":
+            return _const_int(e.right)
+        raise Shape(f"limit expression {ast.unparse(e)}")
+
+    gz = _func(ctree, "_decompress_body_gzip")
+    zs = _func(ctree, "_decompress_body_zstd")
+    return {
+        "chunk": chunk,
+        "gzip_off": offset(gz, "do", "decompress", 1),
+        "zstd_off": offset(zs, "reader", "read", 0),
+        "gzip_guard": _find_if(gz, "total", "max_output_size"),
+        "zstd_guard": _find_if(zs, "total", "max_output_size"),
+    }
+
+
 def _nat_list(xs) -> str:
     return "[" + ", ".join(str(int(x)) for x in xs) + "]"
 
@@ -447,6 +499,7 @@ def emit() -> dict[str, str]:
         and "end = min(start + chunk_size - 1, content_length - 1)" in cr
     )
     first_validated, retry_ok, retry_validated = _fetch_url_attempts(tree)
+    infl = _inflate_limits()
 
     # ---- codec names
     from vgi_rpc._codec import Encoding
@@ -570,6 +623,18 @@ def chunkRangeCall : String := "{ckind}"
 def chunkRangeCheckRecognised : Bool := {b(chunk_cr_ok and chunk_cr_used)}
 /-- `use_parallel` has the conjunct `content_length > 0` -/
 def parallelNonEmpty : Bool := true
+
+/-! ### `vgi_rpc/_codec.py`: the bounded decoders `_fetch_with_probe` calls -/
+
+/-- `_DECOMPRESS_CHUNK_BYTES` -/
+def inflateChunk : Nat := {infl["chunk"]}
+/-- per-call output limit `min(_DECOMPRESS_CHUNK_BYTES, max_output_size - total + K)`: the K of the gzip loop
+    (`do.decompress(inbuf, …)`) and of the zstd streaming loop (`reader.read(…)`) -/
+def gzipLimitOffset : Nat := {infl["gzip_off"]}
+def zstdLimitOffset : Nat := {infl["zstd_off"]}
+/-- `if total <op> max_output_size: raise DecompressionLimitExceeded` in the two loops -/
+def gzipCapGuard : String := "{infl["gzip_guard"]}"
+def zstdCapGuard : String := "{infl["zstd_guard"]}"
 
 /-! ### interpreter tables (this CPython) -/
 
